@@ -187,6 +187,14 @@ func checkC05(ctx *Ctx, c *Case) error {
 		hist["empty-bytes-held-as-nil-or-as-empty-slice"] = h5
 		ctx.Label("history with flipped empty bytes")
 	}
+	h6 := model.BuildP(t, d.ProtoReflect())
+	if k := model.NilEmptyMessages(h6); k > 0 {
+		hist["empty-message-elements-and-map-values-held-as-nil"] = h6
+		ctx.Label("history with empty messages held as nil")
+		if k >= 2 {
+			ctx.Label("history with two or more nil message values")
+		}
+	}
 	hist["clone"] = proto.Clone(hist["struct-filled-by-protoimpl"])
 	names := make([]string, 0, len(hist))
 	for k := range hist {
